@@ -231,7 +231,9 @@ theorem upSegT_correct (v : Bytes) (idx sub : Nat) :
         · exact h
         · exact absurd (List.drop_eq_nil_of_le (by omega)) h0
       have h7l : (rem.take 7).length = 7 := by simp only [List.length_take]; omega
-      simp only [he, Bool.false_eq_true, if_false, h7l, show ¬ (7 : Nat) = 0 from by decide]
+      have hnl : ¬ (v.length ≤ (acc ++ rem.take 7).length) := by
+        rw [← hacc, List.length_append, List.length_append, h7l]; omega
+      simp only [he, Bool.false_eq_true, if_false, h7l, show ¬ (7 : Nat) = 0 from by decide, hnl]
       exact ih { s with buffer := some (rem.drop 7), toggle := tbit (!t) } n (!t)
         (acc ++ rem.take 7) (rem.drop 7) rfl rfl
         (by rw [List.append_assoc, List.take_append_drop]; exact hacc)
